@@ -28,7 +28,7 @@ for inst in insts:
         mm = re.search(r"define [^\n]*@%s\(.*?\n}\n" % re.escape(inst.fname), ll, re.S)
         print(mm.group(0) if mm else "?")
     ctx = runner.make_ctx(vt, inst, f)
-    S = I.summarise(inst.fname, ctx.argterms)
+    S = I.summarise(inst.fname, ctx.argterms, ctx.boolmem)
     ctx.summary = S
     print("==", inst.fname, S.flags, S.unknown)
     print("  actual  :", T.show(S.ret, 9, ctx.names) if S.ret is not None else None)
